@@ -505,11 +505,17 @@ async def process_changing_cause(
             state = state.with_purpose(purpose=cause.reason, handlers=cause_handlers)
 
         # Purge the now-irrelevant handlers if they were not re-purposed (extras are recalculated!).
-        # The current cause continues afterwards, and overrides its own pre-purged handler states.
-        # TODO: purge only the handlers that fell out of current purpose; but it is not critical
+        # Only the handlers that fell out of the current purpose are purged, with their sub-handlers:
+        # the re-purposed ones continue their series, so the progress of their sub-handlers is kept
+        # (otherwise, the already finished sub-handlers would be executed again from scratch).
         if state.extras:
-            state.purge(body=cause.body, patch=cause.patch,
-                        storage=storage, handlers=owned_handlers)
+            fallen_ids = {handler_id for handler_id in state
+                          if state[handler_id].purpose not in (None, cause.reason.value)}
+            fallen_state = progression.State(
+                {handler_id: state[handler_id] for handler_id in fallen_ids},
+                basetime=state.basetime, purpose=cause.reason.value)
+            fallen_state.purge(body=cause.body, patch=cause.patch, storage=storage,
+                               handlers=[h for h in owned_handlers if h.id in fallen_ids])
 
         # Inform on the current cause/event on every processing cycle. Even if there are
         # no handlers -- to show what has happened and why the diff-base is patched.
